@@ -92,10 +92,16 @@ Record task := {
   t_attrs : attrs             (* every other field of ast.Task *)
 }.
 
+(* the templates of `taskfile:` / `dir:` of an include statement, on the family
+   `{{.NAME}}` / `{{.NAME | default "x"}}`: Reader.include expands them before it resolves the path *)
+Inductive tseg := TLit (s : string) | TVar (name : string) (default : string).
+
 Record include := {
   i_ns : string; i_taskfile : string; i_dir : string;
   i_optional : bool; i_internal : bool; i_flatten : bool; i_advanced : bool;
-  i_aliases : list string; i_excludes : list string; i_vars : vars
+  i_aliases : list string; i_excludes : list string; i_vars : vars;
+  i_taskfile_t : list tseg;   (* i_taskfile parsed into segments *)
+  i_dir_t : list tseg         (* i_dir parsed into segments *)
 }.
 
 Inductive err := EVersion | EDotenv | EDup | ENotFound | ECycle | ENoVersion | EFuel | EInternal.
@@ -297,18 +303,45 @@ Fixpoint reaches (fuel : nat) (g : graph) (a b : string) : bool :=
   | S k => existsb (fun e => reaches k g (snd e) b) (out_of g a)
   end.
 
+(* Templating of an include statement (Reader.include): the variables are the process
+   environment overlaid with the STATIC global vars of the including file, nothing else:
+   not the vars of the include statement through which the including file was reached,
+   not the globals of other files.  The environment is passed to the model as the vars of
+   the pseudo file "$ENV" of the file system (no include path resolves to that name). *)
+Definition static_val (d : string) : option string :=
+  match d with String "v"%char (String "="%char r) => Some r | _ => None end.
+Definition env_of (fs : fsys) : vars :=
+  match lookup "$ENV" fs with Some f => f_vars f | None => [] end.
+Definition tpl_env (fs : fsys) (parent : string) : vars :=
+  vars_merge (env_of fs) (match lookup parent fs with Some f => f_vars f | None => [] end).
+Definition tpl_var (env : vars) (name default : string) : string :=
+  match lookup name env with
+  | Some d => match static_val d with
+              | Some EmptyString => default
+              | Some v => v
+              | None => default       (* dynamic (sh:) variables are not in the templater's cache *)
+              end
+  | None => default
+  end.
+Definition tpl_eval (env : vars) (t : list tseg) : string :=
+  fold_right (fun sg acc => match sg with
+                            | TLit l => (l ++ acc)%string
+                            | TVar n d => (tpl_var env n d ++ acc)%string
+                            end) "" t.
+
 (* FileNode.ResolveEntrypoint + fsext.Search: explicit file, or directory holding Taskfile.yml *)
 Definition resolve (fs : fsys) (parent : string) (inc : include) : option string :=
-  let e := smart_join (dirname parent) (i_taskfile inc) in
+  let e := smart_join (dirname parent) (tpl_eval (tpl_env fs parent) (i_taskfile_t inc)) in
   if has e fs then Some e
   else let e' := (e ++ "/Taskfile.yml")%string in if has e' fs then Some e' else None.
 
-(* the Include value stored on the edge: Dir resolved against the including file *)
-Definition resolved (parent : string) (inc : include) : include :=
-  {| i_ns := i_ns inc; i_taskfile := i_taskfile inc; i_dir := smart_join (dirname parent) (i_dir inc);
+(* the Include value stored on the edge: Taskfile / Dir expanded, Dir resolved against the including file *)
+Definition resolved (fs : fsys) (parent : string) (inc : include) : include :=
+  {| i_ns := i_ns inc; i_taskfile := tpl_eval (tpl_env fs parent) (i_taskfile_t inc);
+     i_dir := smart_join (dirname parent) (tpl_eval (tpl_env fs parent) (i_dir_t inc));
      i_optional := i_optional inc; i_internal := i_internal inc; i_flatten := i_flatten inc;
      i_advanced := i_advanced inc; i_aliases := i_aliases inc; i_excludes := i_excludes inc;
-     i_vars := i_vars inc |}.
+     i_vars := i_vars inc; i_taskfile_t := i_taskfile_t inc; i_dir_t := i_dir_t inc |}.
 
 (* Reader.include as a sequential depth-first traversal: a vertex is added once;
    the edge is added after the recursion returns; PreventCycles rejects an edge
@@ -336,7 +369,7 @@ Fixpoint visit (fuel : nat) (fs : fsys) (path : string) (g : graph) : result gra
                          | Err e => Err e
                          | Ok g2 =>
                              if reaches (List.length g2) g2 child path then Err ECycle
-                             else Ok (add_out path (resolved path inc, child) g2)
+                             else Ok (add_out path (resolved fs path inc, child) g2)
                          end
                      end
                  end)
